@@ -639,6 +639,7 @@ void HistSim::checkAll(const Op& op, size_t ix, bool relaxedDoc, int relaxedIdx)
           violate("C06:string-refcount", rep.refMismatch);
       }
       g_stats.c["states.hash_xor"] ^= mix64(rep.stateHash);
+      sketch("states", rep.stateHash);
       count("inspect.checks");
       if (!leaks && opt.replica == 0 && (opt.mode == "free" || opt.mode == "limit" || opt.mode == "enum")) {
         // de-duplication: equal copied strings are stored once. Values created by the API from
